@@ -33,6 +33,8 @@ struct Case {
 }
 
 struct FitOut {
+    /// how the parameter object was built: "literal" or the order of the builder calls
+    built: &'static str,
     solver: &'static str,
     status: &'static str,
     w: Vec<f64>,
@@ -69,6 +71,7 @@ fn descale<T: RealNumber>(c: &Case, solver: &'static str, w: &DenseMatrix<T>, b:
         .map(|j| w.get(j, 0).to_f64().unwrap() * p2(c.cexp[j] - c.yexp))
         .collect();
     FitOut {
+        built: "literal",
         solver,
         status: "ok",
         w: wv,
@@ -78,46 +81,74 @@ fn descale<T: RealNumber>(c: &Case, solver: &'static str, w: &DenseMatrix<T>, b:
 }
 
 fn failed(solver: &'static str, status: &'static str) -> FitOut {
-    FitOut { solver, status, w: vec![], b: 0.0, yhat: vec![] }
+    FitOut { built: "literal", solver, status, w: vec![], b: 0.0, yhat: vec![] }
+}
+
+// ------------------------------------------------------------------ parameter builders
+/// Every fit picks the next way of building its parameter object: the struct literal or one
+/// of the orders in which the `with_*` builder methods can be chained.  All of them describe
+/// the same parameters, so the same contract applies; the choice is recorded as `built`.
+static BUILD_ROTOR: std::sync::atomic::AtomicUsize = std::sync::atomic::AtomicUsize::new(0);
+
+fn ridge_params<T: RealNumber>(s: RidgeRegressionSolverName, alpha: T, normalize: bool) -> (RidgeRegressionParameters<T>, &'static str) {
+    let d = RidgeRegressionParameters::<T>::default;
+    match BUILD_ROTOR.fetch_add(1, std::sync::atomic::Ordering::Relaxed) % 7 {
+        0 => (RidgeRegressionParameters { solver: s, alpha, normalize }, "literal"),
+        1 => (d().with_alpha(alpha).with_normalize(normalize).with_solver(s), "alpha,normalize,solver"),
+        2 => (d().with_alpha(alpha).with_solver(s).with_normalize(normalize), "alpha,solver,normalize"),
+        3 => (d().with_normalize(normalize).with_alpha(alpha).with_solver(s), "normalize,alpha,solver"),
+        4 => (d().with_normalize(normalize).with_solver(s).with_alpha(alpha), "normalize,solver,alpha"),
+        5 => (d().with_solver(s).with_alpha(alpha).with_normalize(normalize), "solver,alpha,normalize"),
+        _ => (d().with_solver(s).with_normalize(normalize).with_alpha(alpha), "solver,normalize,alpha"),
+    }
+}
+
+fn ols_params(s: LinearRegressionSolverName) -> (LinearRegressionParameters, &'static str) {
+    if BUILD_ROTOR.fetch_add(1, std::sync::atomic::Ordering::Relaxed) % 2 == 0 {
+        (LinearRegressionParameters { solver: s }, "literal")
+    } else {
+        (LinearRegressionParameters::default().with_solver(s), "solver")
+    }
 }
 
 fn ols<T: RealNumber>(c: &Case, solver: &'static str) -> FitOut {
     let x: DenseMatrix<T> = matrix(c);
     let y: Vec<T> = target(c);
     let s = if solver == "qr" { LinearRegressionSolverName::QR } else { LinearRegressionSolverName::SVD };
+    let (par, built) = ols_params(s);
     let r = guard(|| {
-        LinearRegression::fit(&x, &y, LinearRegressionParameters { solver: s }).and_then(|m| {
+        LinearRegression::fit(&x, &y, par).and_then(|m| {
             let yh = m.predict(&x)?;
             Ok((m.coefficients().clone(), m.intercept(), yh))
         })
     });
-    match r {
+    let mut o = match r {
         Ok(Ok((w, b, yh))) => descale(c, solver, &w, b, &yh),
         Ok(Err(_)) => failed(solver, "err"),
         Err(_) => failed(solver, "panic"),
-    }
+    };
+    o.built = built;
+    o
 }
 
 fn ridge<T: RealNumber>(c: &Case, solver: &'static str, alpha: f64, normalize: bool) -> FitOut {
     let x: DenseMatrix<T> = matrix(c);
     let y: Vec<T> = target(c);
     let s = if solver == "chol" { RidgeRegressionSolverName::Cholesky } else { RidgeRegressionSolverName::SVD };
+    let (par, built) = ridge_params(s, T::from_f64(alpha).unwrap(), normalize);
     let r = guard(|| {
-        RidgeRegression::fit(
-            &x,
-            &y,
-            RidgeRegressionParameters { solver: s, alpha: T::from_f64(alpha).unwrap(), normalize },
-        )
-        .and_then(|m| {
+        RidgeRegression::fit(&x, &y, par).and_then(|m| {
             let yh = m.predict(&x)?;
             Ok((m.coefficients().clone(), m.intercept(), yh))
         })
     });
-    match r {
+    let mut o = match r {
         Ok(Ok((w, b, yh))) => descale(c, solver, &w, b, &yh),
         Ok(Err(_)) => failed(solver, "err"),
         Err(_) => failed(solver, "panic"),
-    }
+    };
+    o.built = built;
+    o
 }
 
 // ------------------------------------------------------------------ api trait entry points
@@ -183,6 +214,7 @@ fn nd_inputs(c: &Case) -> (Array2<f64>, Array1<f64>) {
 fn nd_out(c: &Case, solver: &'static str, r: Result<Result<(Array2<f64>, f64, Array1<f64>), smartcore::error::Failed>, String>) -> FitOut {
     match r {
         Ok(Ok((w, b, yh))) => FitOut {
+            built: "literal",
             solver,
             status: "ok",
             w: (0..c.cexp.len()).map(|j| w[[j, 0]] * p2(c.cexp[j] - c.yexp)).collect(),
@@ -471,7 +503,7 @@ fn emit(out: &mut Out, run: i64, ev: &str, prec: &str, c: &Case, fits: &[FitOut]
                     break;
                 }
             }
-            vals.push(json!({"solver": f.solver, "status": f.status, "fin": q.finite.get() && f.status == "ok",
+            vals.push(json!({"solver": f.solver, "built": f.built, "status": f.status, "fin": q.finite.get() && f.status == "ok",
                 "W": w, "B": b, "Yhat": yh}));
         }
         if safe {
